@@ -121,7 +121,7 @@ class Hang(BaseException):
     pass
 
 
-TRIAL_SECONDS = 5      # a trial takes milliseconds; a decoder that does not return within this is spinning
+TRIAL_SECONDS = 5      # CPU seconds; a trial takes milliseconds, a decoder that does not return within this is spinning
 
 
 def isolated(fn):
@@ -137,13 +137,14 @@ def isolated(fn):
 
             def on_alarm(signum, frame):
                 raise Hang(frame.f_code.co_filename.rsplit("/", 1)[-1], frame.f_code.co_name, frame.f_lineno)
-            signal.signal(signal.SIGALRM, on_alarm)
-            signal.alarm(TRIAL_SECONDS)
+            # CPU time of this process, not wall time: a loaded machine must not look like a spinning decoder
+            signal.signal(signal.SIGVTALRM, on_alarm)
+            signal.setitimer(signal.ITIMER_VIRTUAL, TRIAL_SECONDS)
             try:
                 data = pickle.dumps(fn())
             except Hang as h:
                 data = pickle.dumps({"hang": "%s:%s:%s" % h.args})
-            signal.alarm(0)
+            signal.setitimer(signal.ITIMER_VIRTUAL, 0)
             with os.fdopen(w, "wb") as f:
                 f.write(data)
         except BaseException as e:     # noqa
